@@ -206,7 +206,7 @@ def rule_attack_ops(ctx):
     cnt = counters[0]
     incs = _increment_sites(prog, owner, cnt)
     r.check(len(incs) == len(tomb) and all(i == 1 for _, i in incs), owner + "." + cnt, "increments=%d tombstonings=%d" % (len(incs), len(tomb)), "%d tombstoning sites, %d `+= 1` sites" % (len(tomb), len(incs)), "tombstoning sites (%d) and counter increments (%d) do not pair up" % (len(tomb), len(incs)), None)
-    r.floor(len(tomb), 2, "tombstoning sites on the attack vector")
+    r.floor(len(tomb), 1, "tombstoning sites on the attack vector")
     used = set()
     for t in tomb:
         b = t.site.body
